@@ -21,6 +21,9 @@ CHECKS = {
  "C08": ("order-type abstract interpretation with edge_removal=False (mutator and presence test)",
          "Accumulative valuation: '+' only for a new pair, never '-', first start immutable, snapshot key {t}, no exception, presence = first_start <= q <= largest id - for all integers.",
          "3.2, 4/C08"),
+ "C02": ("abstract interpretation of all 53 query entry points on small symbolic graphs with presence as an uninterpreted predicate (all valuations); purity (taint) rule",
+         "Each query's interpreted answer equals the projection of the static graph of present pairs: filtered through the presence test with the right orientation, every interaction once, nbunch through nbunch_iter (incl. one-shot iterators and unknown nodes), wrappers forward their arguments, both removal modes. Bounded graph shapes (4 nodes); arithmetic on self-loops not decided. Two pinned deviations are known findings.",
+         "3.6 S1, 4/C02"),
  "C06": ("order-type abstract interpretation of time_slice into a recording result graph; endpoint-convention typing; purity",
          "For every order type of the window against a canonical timeline: exactly one add_interaction(u, v, max(a,F), min(b,T)+1) per interval meeting the window, none otherwise, in order; ValueError iff t_to < t_from; default t_to = t_from; result class; node attributes; source untouched.",
          "3.2, 4/C06"),
